@@ -53,6 +53,8 @@ class FakeBatch(Batch):
         self._fid = self.svc.n
         self.state = 'running'
         self.svc.batches.insert(0, self)
+        if self.svc.world is not None:
+            await self.svc.world.suspend('batch_submit')
 
     async def cancel(self):
         if self.state in ('running', 'open'):
@@ -66,6 +68,7 @@ class FakeBatchClient:
     def __init__(self):
         self.batches = []
         self.n = 0
+        self.world = None
 
     def create_batch(self, attributes=None, callback=None, **k):
         return FakeBatch(self, attributes or {})
@@ -91,6 +94,8 @@ class FakeBatchClient:
                 sel.append(b)
 
         async def it():
+            if self.world is not None:
+                await self.world.suspend('list_batches')
             for b in sel:
                 yield b
         return it()
@@ -120,6 +125,9 @@ class FakeGitHub:
         self.merges = []
         self.merge_attempts = 0
         self.graphql_pages = 0
+        self.world = None
+        self.clock = 1
+        self.changed = {}      # component of the ground truth -> logical time of its last change
         for n in range(1, npr + 1):
             self.prs[n] = {'head': self.fresh('c'), 'labels': set(), 'review': 'REVIEW_REQUIRED', 'open': True,
                            'history': []}
@@ -129,10 +137,20 @@ class FakeGitHub:
         self.ncommit += 1
         return f'{p}{self.ncommit}'
 
+    def touch(self, *key):
+        self.clock += 1
+        self.changed[key] = self.clock
+
     # ---- REST / GraphQL surface used by ci.github
+    async def _suspend(self, label):
+        if self.world is not None:
+            await self.world.suspend(label)
+
     async def getitem(self, url):
         if url == '/repos/o/r/git/refs/heads/main':
-            return {'object': {'sha': self.target}}
+            r = {'object': {'sha': self.target}}
+            await self._suspend('getitem')      # the answer is on the wire: GitHub may change before CI reads it
+            return r
         raise HarnessError(f'unmodelled GET {url}')
 
     def getiter(self, url):
@@ -141,6 +159,7 @@ class FakeGitHub:
         items = [self._pr_json(n) for n, p in sorted(self.prs.items()) if p['open']]
 
         async def it():
+            await self._suspend('getiter')
             for x in items:
                 yield x
         return it()
@@ -173,12 +192,16 @@ class FakeGitHub:
                      for c, s in allctx[lo:hi]]
             rollup = None if not allctx else {'contexts': {'nodes': nodes, 'pageInfo': {
                 'hasNextPage': hi < len(allctx), 'endCursor': str(hi)}}}
-            return {'data': {'repository': {'pullRequest': {
+            r = {'data': {'repository': {'pullRequest': {
                 'reviewDecision': self._val(p['review']),
                 'commits': {'nodes': [{'commit': {'statusCheckRollup': rollup}}]}}}}}
+            await self._suspend('graphql')
+            return r
         m = re.fullmatch(r'/repos/o/r/statuses/(\w+)', url)
         if m:
             self.status.setdefault(m.group(1), {})[data['context']] = data['state'].upper()
+            self.touch('status', m.group(1), data['context'])
+            await self._suspend('post_status')
             return {}
         raise HarnessError(f'unmodelled POST {url}')
 
@@ -189,6 +212,7 @@ class FakeGitHub:
         n = int(m.group(1))
         p = self.prs[n]
         self.merge_attempts += 1
+        await self._suspend('put')              # the merge request is on the wire
         if not p['open'] or data.get('sha') != p['head']:
             raise HTTPException(409)
         if not choose(f'gh_accepts_merge_{self.merge_attempts}', [True, False]):
@@ -197,6 +221,7 @@ class FakeGitHub:
                             'review': p['review'], 'status': dict(self.status.get(p['head'], {}))})
         p['open'] = False
         self.target = self.fresh('t')
+        self.touch('target')
         return {}
 
 
@@ -223,10 +248,31 @@ def flood(gh, n, m):
         st[f'chk{j:02d}'] = SEnum(z3.If(pos == j, bad, z3.IntVal(0)), STATES)
 
 
+PHASES = ['getitem', 'getiter', 'graphql', 'list_batches', 'post_status', 'batch_submit', 'put']
+INTR_KINDS = ['label', 'review', 'status', 'push', 'target_move', 'batch_done']
+
+
+def truth_of(gh, n):
+    p = gh.prs[n]
+    return {'head': p['head'], 'labels': set(p['labels']), 'review': p['review'],
+            'status': dict(gh.status.get(p['head'], {})), 'target': gh.target}
+
+
 class World:
-    def __init__(self, npr):
+    def __init__(self, npr, intr=None):
         self.gh = FakeGitHub(npr)
         self.bc = FakeBatchClient()
+        self.gh.world = self
+        self.bc.world = self
+        self.intr = intr          # {'budget': n, 'phases': [...], 'kinds': [...]} or None (atomic updates)
+        self.intr_used = 0
+        self.hook_no = 0
+        self.depth = 0
+        self.run_id = 0
+        self.delivering = False
+        self.run_phases = set()
+        self.run_start_clock = 0
+        self.inflight = 0
         self.db = FakeDB()
         self.wb = G.WatchedBranch(0, G.FQBranch(G.Repo('o', 'r'), 'main'), deployable=False, mergeable=True, developers=[])
         self.merge_seen = []      # what CI believed at each accepted merge (for the staleness oracle)
@@ -257,13 +303,40 @@ class World:
             if len(self.gh.merges) > before:
                 n = self.gh.merges[-1]['pr']
                 pr = self.wb.prs[n]
-                self.merge_seen.append({'pr': n, 'update': self.updates,
+                self.merge_seen.append({'pr': n, 'update': self.run_id, 'run_start_clock': self.run_start_clock, 'changed': dict(self.gh.changed),
                                         'batch': pr.batch, 'wb_sha': self.wb.sha, 'source_sha': pr.source_sha})
             return r
         self.gh.put = put
 
+    async def suspend(self, label):
+        """A point where the running update waits for GitHub / batch.  While it waits the director may deliver one more
+        event: the external change plus the webhook it triggers (the real notify_* — which finds `updating` set)."""
+        if (self.intr is None or self.depth == 0 or self.delivering or self.intr_used >= self.intr['budget']
+                or label not in self.intr['phases'] or label in self.run_phases):
+            return
+        self.run_phases.add(label)
+        self.hook_no += 1
+        if not choose(f'intr{self.hook_no}', [False, True]):
+            return
+        self.intr_used += 1
+        self.delivering = True
+        try:
+            kind = apply_event(self, f'in{self.hook_no}', self.intr['kinds'], during=label)
+            if kind is not None:
+                self.inflight += 1
+                await self.ci(kind)
+        finally:
+            self.delivering = False
+
     async def ci(self, kind):
         self.updates += 1
+        outer = self.depth == 0
+        if outer:
+            self.run_id += 1
+            self.run_phases = set()
+            self.gh.clock += 1
+            self.run_start_clock = self.gh.clock
+        self.depth += 1
         try:
             if kind == 'github':
                 await self.wb.notify_github_changed(self.db, self.bc, self.gh, False)
@@ -274,14 +347,73 @@ class World:
         except AssertionError as e:
             # the service logs the failed update (webhook answers 500 / update_loop logs) and carries on
             self.aborted_updates.append((self.updates, repr(e)[:120]))
+        finally:
+            self.depth -= 1
 
 
 EVENTS = ['push', 'review', 'label', 'status', 'batch_done', 'target_move', 'poll']
 
 
-async def history(npr, k, events=EVENTS, flood_sizes=None):
-    """Initial full update, then k events, each a solver choice, each followed by the webhook-triggered update."""
-    w = World(npr)
+def apply_event(w, tag, events, during=None):
+    """One external event (a solver choice among those applicable): changes the ground truth and returns which webhook
+    it triggers ('github' | 'batch' | 'full'), or None when nothing is applicable."""
+    open_prs = [n for n, p in sorted(w.gh.prs.items()) if p['open']]
+    running = [b for b in w.bc.batches if b.state == 'running']
+    applicable = [e for e in events if not (e in ('push', 'review', 'label', 'status') and not open_prs)
+                  and not (e == 'batch_done' and not running)]
+    if not applicable:
+        return None
+    ev = choose(f'{tag}', applicable)
+    n = open_prs[0] if open_prs else 1
+    if ev in ('push', 'review', 'label', 'status') and len(open_prs) > 1:
+        n = choose(f'{tag}_pr', open_prs)
+    p = w.gh.prs[n]
+    note = (ev,) if during is None else (f'{ev} [while the update waits in {during}]',)
+    if ev == 'push':
+        olds = p['history'][:-1]
+        tgt = choose(f'{tag}_to', ['fresh'] + olds) if olds else 'fresh'
+        p['head'] = w.gh.fresh('c') if tgt == 'fresh' else tgt
+        p['history'].append(p['head'])
+        w.gh.touch('head', n)
+        w.trace.append(note + (n, p['head']))
+        return 'github'
+    if ev == 'review':
+        p['review'] = SEnum(z3.Int(f'{tag}_decision'), DECISIONS)
+        w.gh.touch('review', n)
+        w.trace.append(note + (n, p['review']))
+        return 'github'
+    if ev == 'label':
+        lab = choose(f'{tag}_label', ['WIP', 'stacked PR', 'prio:high'] if during is None else ['WIP'])
+        p['labels'] ^= {lab}
+        w.gh.touch('labels', n)
+        w.trace.append(note + (n, lab))
+        return 'github'
+    if ev == 'status':
+        commits = list(dict.fromkeys(p['history']))
+        c = choose(f'{tag}_commit', commits[::-1]) if len(commits) > 1 else commits[0]
+        ctx = choose(f'{tag}_ctx', [OTHER, CTX])
+        w.gh.status.setdefault(c, {})[ctx] = SEnum(z3.Int(f'{tag}_state'), STATES)
+        w.gh.touch('status', c, ctx)
+        w.trace.append(note + (n, c, ctx))
+        return 'github'
+    if ev == 'batch_done':
+        b = choose(f'{tag}_batch', running) if len(running) > 1 else running[0]
+        b.state = choose(f'{tag}_result', ['success', 'failure'])
+        w.trace.append(note + (b.id, b.state))
+        return 'batch'
+    if ev == 'target_move':
+        w.gh.target = w.gh.fresh('t')
+        w.gh.touch('target')
+        w.trace.append(note + (w.gh.target,))
+        return 'github'
+    w.trace.append(note)
+    return 'full'
+
+
+async def history(npr, k, events=EVENTS, flood_sizes=None, intr=None):
+    """Initial full update, then k events, each a solver choice, each followed by the webhook-triggered update.
+    With `intr`, up to intr['budget'] further events are delivered WHILE an update is suspended in a fake API call."""
+    w = World(npr, intr)
     if flood_sizes:
         m = choose('flood_m', list(flood_sizes))
         w.flood_m = m
@@ -290,75 +422,50 @@ async def history(npr, k, events=EVENTS, flood_sizes=None):
         p['review'] = choose(f'init_review_{n}', ['REVIEW_REQUIRED', 'APPROVED'])
     await w.ci('full')
     for step in range(k):
-        open_prs = [n for n, p in sorted(w.gh.prs.items()) if p['open']]
-        running = [b for b in w.bc.batches if b.state == 'running']
-        applicable = [e for e in events if not (e in ('push', 'review', 'label', 'status') and not open_prs)
-                      and not (e == 'batch_done' and not running)]
-        ev = choose(f'ev{step}', applicable)
-        n = open_prs[0] if open_prs else 1
-        if ev in ('push', 'review', 'label', 'status') and len(open_prs) > 1:
-            n = choose(f'ev{step}_pr', open_prs)
-        p = w.gh.prs[n]
-        if ev == 'push':
-            olds = p['history'][:-1]
-            tgt = choose(f'ev{step}_to', ['fresh'] + olds) if olds else 'fresh'
-            p['head'] = w.gh.fresh('c') if tgt == 'fresh' else tgt
-            p['history'].append(p['head'])
-            w.trace.append(('push', n, p['head']))
-            await w.ci('github')
-        elif ev == 'review':
-            p['review'] = SEnum(z3.Int(f'ev{step}_decision'), DECISIONS)
-            w.trace.append(('review', n, p['review']))
-            await w.ci('github')
-        elif ev == 'label':
-            lab = choose(f'ev{step}_label', ['WIP', 'stacked PR', 'prio:high'])
-            p['labels'] ^= {lab}
-            w.trace.append(('label', n, lab))
-            await w.ci('github')
-        elif ev == 'status':
-            commits = list(dict.fromkeys(p['history']))
-            c = choose(f'ev{step}_commit', commits[::-1]) if len(commits) > 1 else commits[0]
-            ctx = choose(f'ev{step}_ctx', [OTHER, CTX])
-            w.gh.status.setdefault(c, {})[ctx] = SEnum(z3.Int(f'ev{step}_state'), STATES)
-            w.trace.append(('status', n, c, ctx))
-            await w.ci('github')
-        elif ev == 'batch_done':
-            b = choose(f'ev{step}_batch', running) if len(running) > 1 else running[0]
-            b.state = choose(f'ev{step}_result', ['success', 'failure'])
-            w.trace.append(('batch_done', b.id, b.state))
-            await w.ci('batch')
-        elif ev == 'target_move':
-            w.gh.target = w.gh.fresh('t')
-            w.trace.append(('target_move', w.gh.target))
-            await w.ci('github')
-        else:
-            w.trace.append(('poll',))
-            await w.ci('full')
+        kind = apply_event(w, f'ev{step}', events)
+        if kind is not None:
+            await w.ci(kind)
     return w
 
 
 def judge(w):
-    """-> list of (description, z3 formula 'this accepted merge violates the property') for the finished world."""
+    """-> list of (description, z3 formula 'this accepted merge violates the property') for the finished world.
+
+    A component of the gate (approval, labels, each status context of the merged head, the batch/target pair) counts
+    against a merge when GitHub's truth violates it AT THE MOMENT OF THE MERGE and its last change happened BEFORE THE
+    MERGING UPDATE RUN STARTED.  Every change is notified at once in this model, so CI had acknowledged that
+    notification (the webhook handler had returned) before it began the run that merged: "merges only if …" was then
+    decided on information CI had been told is outdated.  A change that arrives while the merging run itself is in
+    flight is the unavoidable race with GitHub and is tolerated (counted in World.inflight_merges).  With atomic
+    updates every change precedes the run, and this is the plain 'truth at merge time' oracle."""
     bad = []
     per_update = {}
+    w.inflight_merges = 0
     for m, seen in zip(w.gh.merges, w.merge_seen):
         per_update[seen['update']] = per_update.get(seen['update'], 0) + 1
-        conds = []
-        rv = m['review']
-        conds.append(('not approved at merge time',
-                      z3.Not(rv.is_('APPROVED')) if isinstance(rv, SEnum) else z3.BoolVal(rv != 'APPROVED')))
-        conds.append(('do-not-merge label at merge time', z3.BoolVal(any(l in DO_NOT_MERGE for l in m['labels']))))
-        st = m['status']
-        conds.append(('no status on the merged head commit', z3.BoolVal(len(st) == 0)))
+        n, head, t0, ch = m['pr'], m['head'], seen['run_start_clock'], seen['changed']
+        rv, st = m['review'], m['status']
+        comps = [('not approved', z3.Not(rv.is_('APPROVED')) if isinstance(rv, SEnum) else z3.BoolVal(rv != 'APPROVED'),
+                  [('review', n)]),
+                 ('do-not-merge label', z3.BoolVal(any(l in DO_NOT_MERGE for l in m['labels'])), [('labels', n)]),
+                 ('no status on the merged head commit', z3.BoolVal(len(st) == 0), [('head', n)])]
         for c, s in st.items():
-            conds.append((f'status {c} of the merged head commit is not success',
-                          z3.Not(s.is_('SUCCESS')) if isinstance(s, SEnum) else z3.BoolVal(s != 'SUCCESS')))
+            comps.append((f'status {c} of the merged head commit is not success',
+                          z3.Not(s.is_('SUCCESS')) if isinstance(s, SEnum) else z3.BoolVal(s != 'SUCCESS'),
+                          [('status', head, c), ('head', n)]))
         b = seen['batch']
         okb = (b is not None and isinstance(b, FakeBatch) and b.state == 'success'
-               and b.attributes.get('source_sha') == m['head'] and b.attributes.get('target_sha') == m['target_before'])
-        conds.append(('test batch did not succeed on (merged head, current target commit)', z3.BoolVal(not okb)))
-        for what, f in conds:
-            bad.append((f'merge of pr {m["pr"]} ({m["head"]} onto {m["target_before"]}): {what}', f))
+               and b.attributes.get('source_sha') == head and b.attributes.get('target_sha') == m['target_before'])
+        comps.append(('test batch did not succeed on (merged head, current target commit)', z3.BoolVal(not okb),
+                      [('target',), ('head', n)]))
+        for what, f, keys in comps:
+            known_before_run = all(ch.get(k, 0) < t0 for k in keys)
+            if not known_before_run:
+                if not z3.is_false(z3.simplify(f)):
+                    w.inflight_merges += 1
+                continue
+            bad.append((f'merge of pr {n} ({head} onto {m["target_before"]}): {what} — at merge time, unchanged since '
+                        f'before the merging update started', f))
     for u, cnt in per_update.items():
         bad.append((f'{cnt} merges within one update', z3.BoolVal(cnt > 1)))
     targets = [m['target_before'] for m in w.gh.merges]
@@ -366,19 +473,19 @@ def judge(w):
     return bad
 
 
-def domain_constraints(k):
+def domain_constraints(k, hooks=0):
     c = []
-    for step in range(k):
-        d, s = z3.Int(f'ev{step}_decision'), z3.Int(f'ev{step}_state')
+    for tag in [f'ev{step}' for step in range(k)] + [f'in{j}' for j in range(1, hooks + 1)]:
+        d, s = z3.Int(f'{tag}_decision'), z3.Int(f'{tag}_state')
         c += [d >= 0, d < len(DECISIONS), s >= 0, s < len(STATES)]
     return c
 
 
-def explore_history(npr, k, constraints=(), events=EVENTS, max_paths=400000, flood_sizes=None):
-    cons = domain_constraints(k) + list(constraints)
+def explore_history(npr, k, constraints=(), events=EVENTS, max_paths=400000, flood_sizes=None, intr=None):
+    cons = domain_constraints(k, 12 * (k + 1) if intr else 0) + list(constraints)
     if flood_sizes:
         pos, bad = z3.Int('flood_pos'), z3.Int('flood_state')
         cons += [pos >= 0, pos <= max(flood_sizes), bad >= 0, bad < len(STATES)]
     ex = natsym.Explorer(constraints=cons, max_paths=max_paths, max_decisions=4000)
-    outs = ex.run(lambda: history(npr, k, events, flood_sizes))
+    outs = ex.run(lambda: history(npr, k, events, flood_sizes, intr))
     return outs, ex
